@@ -154,7 +154,7 @@ class C03(E1Check):
             out.append(viol("update-count", sig + "|count", observed=T.outcome, expected=exp_out))
         if nchg == 0 and T.pre_bytes is not None and T.pre_bytes != T.post_bytes:
             out.append(viol("noop-update-bytes", sig + "|noop-changes-file", observed=T.post_bytes, expected=T.pre_bytes))
-        if not out and T.post_valid and self.is_probe(T.op):
+        if not out and T.post_valid and self.is_probe(T.op) and (nchg or T.outcome[:2] != ("ret", 0)):
             out += [dict(v, kind="transition") for v in observers.index_equiv("C03", T.world.db, T.post, self.ivocab, counters, tag=f"|after-{k}")]
         return out
 
